@@ -281,10 +281,26 @@ func checkAccessor(c AccCase) *vk.Violation {
 }
 
 var reg = vk.Registry{
-	"set":      func(raw json.RawMessage) *vk.Violation { var c SetCase; _ = json.Unmarshal(raw, &c); return checkSet(c) },
-	"bytes":    func(raw json.RawMessage) *vk.Violation { var c BytesCase; _ = json.Unmarshal(raw, &c); return checkBytes(c) },
-	"big":      func(raw json.RawMessage) *vk.Violation { var c BigCase; _ = json.Unmarshal(raw, &c); return checkBig(c) },
-	"accessor": func(raw json.RawMessage) *vk.Violation { var c AccCase; _ = json.Unmarshal(raw, &c); return checkAccessor(c) },
+	"set": func(raw json.RawMessage) *vk.Violation {
+		var c SetCase
+		_ = json.Unmarshal(raw, &c)
+		return checkSet(c)
+	},
+	"bytes": func(raw json.RawMessage) *vk.Violation {
+		var c BytesCase
+		_ = json.Unmarshal(raw, &c)
+		return checkBytes(c)
+	},
+	"big": func(raw json.RawMessage) *vk.Violation {
+		var c BigCase
+		_ = json.Unmarshal(raw, &c)
+		return checkBig(c)
+	},
+	"accessor": func(raw json.RawMessage) *vk.Violation {
+		var c AccCase
+		_ = json.Unmarshal(raw, &c)
+		return checkAccessor(c)
+	},
 }
 
 func TestReplay(t *testing.T) { vk.RunReplay(t, reg) }
@@ -425,4 +441,27 @@ func TestOversizedAndAccessors(t *testing.T) {
 		rec.Report(t, "big", checkBig(c))
 	})
 	_ = reflect.TypeOf
+}
+
+// FuzzParsers: coverage-guided byte strings through the four parsers with the
+// no-fabrication / agreement oracle (thorough tier only).
+func FuzzParsers(f *testing.F) {
+	f.Add([]byte{})
+	f.Add([]byte{0, 1, 0, 0})
+	f.Add([]byte{0, 1, 0, 2, 0xaa, 0xbb, 0, 1, 0, 1, 0xcc})
+	f.Add([]byte{0x02, 0x04, 0xff, 0xff, 1, 2, 3})
+	f.Add([]byte{0, 2, 0, 1})
+	f.Add([]byte{0, 2, 0})
+	f.Fuzz(func(t *testing.T, data []byte) {
+		if len(data) > 1<<16 {
+			return
+		}
+		if v := checkBytes(BytesCase{vk.Hex(data)}); v != nil {
+			if vk.IsKnown("C16", v.Key) {
+				return
+			}
+			path := rec.WriteReplay("bytes", v)
+			t.Fatalf("VIOLATION-CASE property=C16 kind=bytes key=%q replay=%s\n%s", v.Key, path, v.Msg)
+		}
+	})
 }
